@@ -259,6 +259,9 @@ func (p BinaryProtocol) ReadMessageBegin(buf []byte) (name string, typeID TMessa
 	// read method name
 	name, l, err1 := p.ReadString(buf[off:])
 	if err1 != nil {
+		if err1 == errNegativeSize {
+			return "", 0, 0, 0, errNegativeSize
+		}
 		return "", 0, 0, 0, errReadMessage
 	}
 	off += l
